@@ -325,6 +325,53 @@ fn harvest(prop: &'static str, seed: u64, index: u64, tier: Tier, families: &[&'
     scn
 }
 
+/// A scenario in which the user's validity checker unwinds at its k-th call inside a solve and
+/// the caller goes on using the planner (see PathProp::generate). Independent of the planner's
+/// generator by construction: scripted uniform samples, goal bias exactly 0 or 1.
+pub fn panic_resume(prop: &'static str, seed: u64, index: u64, mut o2: GenOpts) -> Scenario {
+    let mut rng2 = Xo::new(mix(seed, "panic-resume", index));
+    let kind = *rng2.pick(&[PlannerKind::RRT, PlannerKind::RRT, PlannerKind::RRTStar, PlannerKind::RRTConnect]);
+    o2.planner = Some(kind);
+    o2.max_iters = 60;
+    o2.query_budget = 3e5;
+    o2.goal_sampler = Some(GoalSampler::Fixed);
+    let mut scn = gen::base(&mut rng2, prop, seed, index, &o2);
+    let ext = scn.param("ext").unwrap_or(1.0);
+    let geo = crate::spaces::geo_for(&scn.space).unwrap();
+    let anchors = vec![scn.problems[0].starts[0].clone(), scn.problems[0].goal.target.clone()];
+    let asz = rng2.usize_in(5, 10);
+    let alpha = crate::treechecks::alphabet(&*geo, &mut rng2, &anchors, asz);
+    let alpha: Vec<St> = alpha.into_iter().filter(|s| crate::spaces::bounds_excess(&scn.space, s).0 == 0.0).collect();
+    let budgets: Vec<u64> = (0..rng2.usize_in(2, 3)).map(|_| 3 + rng2.below(25)).collect();
+    let total: u64 = budgets.iter().sum::<u64>() + 8;
+    let mut script = vec![];
+    for _ in 0..total {
+        if rng2.chance(0.7) && !alpha.is_empty() {
+            script.push(rng2.pick(&alpha).clone());
+        } else if let Some(q) = geo.sample(&mut rng2) {
+            script.push(q);
+        } else {
+            script.push(anchors[0].clone());
+        }
+    }
+    scn.sampling.script = script;
+    scn.planner.goal_bias = *rng2.pick(&[0.0, 0.0, 1.0]);
+    if rng2.chance(0.6) {
+        scn.planner.max_distance = ext * rng2.range(0.05, 0.6);
+    }
+    scn.planner.search_radius = scn.planner.max_distance * rng2.range(1.0, 5.0);
+    scn.problems[0].goal.comp = None;
+    scn.calls = vec![CallSpec::Setup { problem: 0 }];
+    for b in &budgets {
+        scn.calls.push(solve_budget(*b));
+    }
+    scn.faults = vec![FaultSpec::ValidityPanicAt { at_call: 1 + (rng2.log_range(1.0, 600.0) as u64) }];
+    scn.params.insert("panic_resume".into(), 1.0);
+    scn.params.remove("perturb");
+    scn.family = format!("checker_unwinds_then_resume/{}", scn.family);
+    scn
+}
+
 impl PathProp {
     fn opts(&self, rng: &mut Xo, tier: Tier) -> GenOpts {
         let big = tier == Tier::Thorough;
@@ -469,6 +516,17 @@ impl Check for PathProp {
             scn.params.remove("fresh_objects");
             scn.family = format!("prm_harvest/{}", scn.family);
             return scn;
+        }
+        if matches!(self.id, "C01" | "C02" | "C03" | "C04" | "C05" | "C06") && index % 16 == 7 {
+            // The user's validity checker UNWINDS at its k-th call inside a solve; the caller
+            // catches it and goes on using the planner (solve again, no setup). Whatever the
+            // interrupted iteration left in the tree, later paths must still have the property.
+            // The interrupted call had taken the seeded generator with it, so the run is made
+            // independent of it: every uniform sample comes from a script, the goal sampler has
+            // its own stream, and the goal bias is exactly 0 or 1.
+            let mut rng2 = Xo::new(mix(seed, "panic-resume-opts", index));
+            let o2 = self.opts(&mut rng2, tier);
+            return panic_resume(self.id, seed, index, o2);
         }
         if self.id == "C01" && index % 40 == 17 {
             // dyadic point-obstacle world (see treechecks::fixture): a scripted sample sequence
